@@ -348,7 +348,7 @@ func runC22(c *Ctx) {
 		construct := fmt.Sprintf("%s.fanoutForward#return[%d]", rel, nRet-1)
 		txt := strings.ReplaceAll(exprString(r), " ", "")
 		switch {
-		case txt == "ctx.Err()":
+		case txt == "ctx.Err()" || isContextErr(info, r):
 			c.OK("audited-exits", construct, p.Pos(ret.Pos()), "context error")
 		case distErr != nil && objOf(info, r) == distErr:
 			// must be on the non-nil edge of the distribution error
